@@ -23,6 +23,57 @@ func init() {
 func c16() []*Ob {
 	searchStores := Callee("(*proxy/search.Ingestor).searchStores")
 	return []*Ob{
+		{Prop: "C16", ID: "C16.9", Engine: "PAIR(parallel arrays)", Floor: 1,
+			Desc: "every id of the answer gets its slot: proxyapi.makeProtoDocs writes one document per element of qpr.IDs — the write into the response runs on every iteration of the loop over the ids and nothing leaves that loop early; a fetch stream that fails half way (request context ended after the search phase) yields empty documents for the rest, it does not shorten an answer that is reported complete and without error",
+			Check: func(c *Ctx) {
+				fn := c.Fn("proxyapi.makeProtoDocs")
+				if fn == nil {
+					return
+				}
+				isDocPtrSlice := func(t types.Type) bool {
+					sl, ok := t.Underlying().(*types.Slice)
+					if !ok {
+						return false
+					}
+					_, isPtr := sl.Elem().Underlying().(*types.Pointer)
+					return isPtr && strings.HasSuffix(TypeStr(sl.Elem()), "v1.Document")
+				}
+				n := 0
+				for _, b := range fn.Blocks {
+					for _, in := range b.Instrs {
+						var at ssa.Instruction
+						switch x := in.(type) {
+						case *ssa.Call:
+							if CallName(x) == "builtin.append" && isDocPtrSlice(x.Type()) {
+								at = x
+							}
+						case *ssa.Store:
+							if ia, ok := x.Addr.(*ssa.IndexAddr); ok && isDocPtrSlice(ia.X.Type()) {
+								at = x
+							}
+						}
+						if at == nil {
+							continue
+						}
+						n++
+						l := InnermostLoop(at.Block())
+						if l == nil {
+							c.Violation("pair:makeProtoDocs:noloop", at.Pos(), "makeProtoDocs fills the response outside a loop over the ids")
+							continue
+						}
+						_, every := EveryIteration(at)
+						exits := l.EarlyExits()
+						if every && len(exits) == 0 {
+							c.Site(at.Pos(), "one response document is written per id, the loop runs to the last id")
+						} else {
+							c.Violation("pair:makeProtoDocs:one-per-id", at.Pos(), "makeProtoDocs does not write a document for every id (the write is skipped on some iteration, or the loop over the ids is left early): ids that the search returned are silently missing from an answer that carries no error and no partial-response mark")
+						}
+					}
+				}
+				if n == 0 {
+					c.Undecided("pair:makeProtoDocs:nowrite", fn.Pos(), "cannot see where makeProtoDocs fills the response")
+				}
+			}},
 		{Prop: "C16", ID: "C16.1", Engine: "ERRFLOW+ACK", Floor: 3,
 			Desc: "every shard error is accounted: searchStores returns or collects each ShardResponse.Err, appends a QPR only under Err == nil, returns (qprs, nil) only when the de-duplicated errors are nil and wraps ErrPartialResponse when data and errors coexist; searchShard succeeds only with a replica's response and otherwise returns the collected errors",
 			Check: func(c *Ctx) {
